@@ -636,6 +636,8 @@ def r4_writeback(rep, src):
         ('text the parser rejects', [('V', 'a'), ('N', '\n')], True, 'ValueError', False),
         ('text that re-parses as two fields', [('V', 'a\nX: y'), ('N', '\n')], (1, 2), 'ValueError', False),
         ('text that re-parses as two paragraphs', [('V', 'a\n\nX: y'), ('N', '\n')], (2, 1), 'ValueError', False),
+        # a blank line ends the paragraph: the re-parse is the field and a separator after it, which would be dropped
+        ('text that re-parses as the field followed by a blank line', [('V', 'a'), ('N', '\n'), ('W', ' '), ('N', '\n')], (1, 1, 'blank'), 'ValueError', False),
         # the list became empty (its last value was removed): an empty field is valid and is read back as the empty list
         ('a list without values (a blank and the line end)', [('W', ' '), ('N', '\n')], False, 'ok', False),
     ]
@@ -668,6 +670,9 @@ def r4_writeback(rep, src):
         heap.newkv = heap.alloc('Deb822KeyValuePairElement', {'field_name': 'F', 'value_element': newv}, name='@new_field')
         para = heap.alloc('Deb822NoDuplicateFieldsParagraphElement', {'kvpair_count': shape[1]}, name='@reparsed_paragraph')
         more = [heap.alloc('Deb822NoDuplicateFieldsParagraphElement', {'kvpair_count': 1}, name='@reparsed_paragraph%d' % i_) for i_ in range(2, shape[0] + 1)]
+        extra = [heap.alloc('Deb822WhitespaceToken', {'text': ' \n', 'is_whitespace': True, 'is_comment': False}, name='@separator')] if len(shape) > 2 else []
+        # all parts of the re-parsed file (paragraphs and what stands between or after them), when the code asks for them
+        heap.hooks['.iter_parts'] = lambda it, a, k, para=para, more=more, extra=extra: it.h.new_list([para] + more + extra)
         heap.hooks['.__iter__'] = None
         del heap.hooks['.__iter__']
         heap.hooks['next'] = lambda it, a, k: para
